@@ -34,7 +34,7 @@ class Anchors:
     def __init__(self, ctx, fx, rule):
         self.fx = fx
         self.ok = True
-        self.new = fx.fn(NEW)
+        self.new = fx.view(NEW)
         if self.new is None:
             ctx.missing(rule, NEW, "public constructor not found")
             self.ok = False
@@ -43,9 +43,11 @@ class Anchors:
         self.reach = cg.reachable_from(self.g, [NEW])
         self.decodes = []  # (fn, bb, node, kind)
         for name in sorted(self.reach):
-            fn = fx.fns[name]
+            fn = fx.view(name)
+            if fn is None or fn.is_macro_generated():
+                continue
             fv = vals(fn)
-            for b, t in fn.calls():
+            for b, t in fn.own_calls():
                 n = fv.call_node(b)
                 if is_decode(n) and len(n.kids) >= 3:
                     key = n.kids[1]
@@ -61,23 +63,26 @@ class Anchors:
         self.other_decodes = [d for d in self.decodes if d[3] == "other"]
 
     def requires(self, fn, targets, _seen=None):
-        """Req(fn): every Ok-ish exit of fn is dominated by the success edge of a call that is one of `targets`
-        (list of (fn, bb)) or a call to a crate-local function for which Req holds. Returns (bool, good_edges)."""
+        """Req(fn): every Ok-ish exit of fn (a view) is dominated by the success edge of a call that is one of `targets`
+        (list of (fn, bb): identified by their origin, so a copy inlined into fn counts) or a call to a non-inlined crate-local
+        function for which Req holds. Returns (bool, good_edges)."""
         if _seen is None:
             _seen = set()
         if fn.name in _seen:
             return (False, [])
         _seen = _seen | {fn.name}
+        tkeys = set(f.orig_key(b) for (f, b) in targets)
+        tnames = set(k[0] for k in tkeys)
         fv = vals(fn)
         good = []
         for b, t in fn.calls():
             n = fv.call_node(b)
-            if any(f is fn and bb == b for (f, bb) in targets):
+            if fn.orig_key(b) in tkeys:
                 g, _ = success_edges(fn, n)
                 good.extend(g)
             elif t.get("resolved_local") and t.get("resolved") in self.fx.fns and t.get("resolved") != fn.name:
-                callee = self.fx.fns[t["resolved"]]
-                if any(f.name in cg.reachable_from(self.g, [callee.name]) for (f, _) in targets):
+                callee = self.fx.view(t["resolved"])
+                if any(tn in cg.reachable_from(self.g, [callee.name]) for tn in tnames):
                     r, _ = self.requires(callee, targets, _seen)
                     if r:
                         g, _ = success_edges(fn, n)
